@@ -398,9 +398,14 @@ def c08_path(method, tag, p, nested):
                     out.append(discharge('C08.%s%s.old_file_removed@%d' % (method, tag, i), 'trace', p.pc, goal,
                                          function='Cache.' + method, path=p.decisions))
             if e[0] == 'DELETE_SET':
-                ok = any(tr[j][0] == 'FILE_REMOVE_BATCH' for j, x in removed_terms(tr) if j > i)
+                # the files scheduled are those of the very page of rows that was deleted
+                def same_page(x):
+                    m = getattr(getattr(x.get('batch'), 'seq', None), 'member', None)
+                    return m is not None and m.eq(e[1]['member'])
+                ok = any(tr[j][0] == 'FILE_REMOVE_BATCH' and same_page(x) for j, x in removed_terms(tr) if j > i)
                 out.append(R('C08.%s%s.culled_files_removed@%d' % (method, tag, i), ok, method, p,
-                             'rows removed by culling but their files are not scheduled for removal'))
+                             'rows removed by culling but the files scheduled for removal are not those of the rows deleted '
+                             '(none, or the files of another selection)'))
     # (3) counters: count / size triggers keep Settings equal to the recomputed values
     if p.kind != 'cut' and not st.world.get('txn.active'):
         for nm, part in SM.invariant(st.world, named=True):
